@@ -6,7 +6,9 @@ abandoned) the offline series checker validates anchor, step relation
 (reference point arithmetic), order, count and anchor membership.  A
 postcondition on TimeRecurrence.__init__ checks the derived interval / far
 anchor against the reference."""
+import copy
 import itertools
+import pickle
 from fractions import Fraction as F
 
 from .. import gen
@@ -365,6 +367,7 @@ def install(ctx, repo, probes):
     for mode in R.MODES:
         ctx.target("mode/" + mode)
     ctx.target("anchor-24:00", "reentrant-iteration",
+               "copied/copy", "copied/deepcopy", "copied/pickle",
                "single/three-notations", "longwalk", "shifted/r+d",
                "shifted/d+r",
                "shifted/r-d")
@@ -432,10 +435,30 @@ def run_case(ctx, repo, case):
         ctx.case_key = ("rec", repr(sorted(desc.items(), key=str)))
         ctx.cls("mode/" + mode)
         if case["op"] == "iterate":
-            if desc["reps"] is None and not recgen.is_single(desc):
-                consume(rec, 12)
-            else:
-                consume(rec, 1000)
+            limit = 12 if desc["reps"] is None and \
+                not recgen.is_single(desc) else 1000
+            consume(rec, limit)
+            how = case.get("copied")
+            if how:
+                # a copy of the value (copy / deepcopy / pickle round trip)
+                # is the same series: same checker, and equal to the original
+                ctx.ev("copied-series")
+                try:
+                    rec2 = {"copy": copy.copy, "deepcopy": copy.deepcopy,
+                            "pickle": lambda r: pickle.loads(pickle.dumps(r))
+                            }[how](rec)
+                except Exception as exc:
+                    ctx.violation("copied.raised", "%s of the recurrence "
+                                  "built from %r raised %r" % (how, desc, exc))
+                    return
+                ctx.case_rec_id = id(rec2)
+                consume(rec2, limit)
+                if (rec2 == rec) is not True or hash(rec2) != hash(rec):
+                    ctx.violation("copied.differs", "%s of the recurrence "
+                                  "built from %r is not equal to it" % (
+                                      how, desc))
+                else:
+                    ctx.cls("copied/" + how)
         elif case["op"] == "reentrant":
             # iteration is a pure view: pausing one pass while another runs
             # must not change what any later pass yields
@@ -628,6 +651,24 @@ def workload(ctx, repo):
                     "count": 100003 if fmt == 3 else 100001}
             ctx.case = case
             run_case(ctx, repo, case)
+    # copies of single-point and ordinary series in both one-anchor notations
+    if ctx.worker == 0:
+        for fmt in (3, 4):
+            for reps, dur in ((1, {"days": 1}), (4, {"seconds": 0}),
+                              (1, {"months": 1}), (3, {"hours": 6}),
+                              (None, {"days": 2})):
+                for how in ("copy", "deepcopy", "pickle"):
+                    a = {"year": 2020, "month_of_year": 2, "day_of_month": 29,
+                         "hour_of_day": 6, "minute_of_hour": 0,
+                         "second_of_minute": 0, "time_zone_hour": 0,
+                         "time_zone_minute": 0}
+                    desc = {"mode": "gregorian", "fmt": fmt, "reps": reps,
+                            "dur": dur}
+                    desc["start" if fmt == 3 else "end"] = a
+                    case = {"op": "iterate", "desc": desc, "copied": how}
+                    ctx.case = case
+                    ctx.ev("cases.copied-series")
+                    run_case(ctx, repo, case)
     # the three notations with spellings 26 hours of offset apart (the local
     # dates of one instant are then up to two days apart)
     if ctx.worker == 0:
@@ -724,6 +765,8 @@ def workload(ctx, repo):
                 a["hour_of_day"] = 24
                 ctx.cls("anchor-24:00")
             case = {"op": "iterate", "desc": desc}
+            if k % 5 == 2:
+                case["copied"] = ("copy", "deepcopy", "pickle")[(k // 5) % 3]
         ctx.case = case
         if k % 401 == 0:
             ctx.sample(case)
